@@ -9,7 +9,7 @@ TARGETS = [M]
 THEOREMS = [(M, "NQ.C19." + n) for n in [
     "step_valid", "choice_allowed", "progress", "expand_isSome", "expand_run", "sum_inv", "run_steps",
     "simplify_sound", "fields_fit", "finish_keeps_all", "result_within", "result_within_radians",
-    "spec_within", "accepts_sound", "emitted_operands", "emitted_within", "rotation_pair", "rotation_sum"]]
+    "spec_within", "accepts_sound", "float_error_bound", "result_within_float", "emitted_operands", "emitted_within", "rotation_pair", "rotation_sum"]]
 TRANSLATORS = []
 LEVEL_TEXT = (
     "Lean theorems over exact dyadic values (every double is one) read in any ordered field: for EVERY run of the "
@@ -24,11 +24,14 @@ LEVEL_TEXT = (
     "equal the model's output (or be an accepted neighbouring-exponent run). Oracle: Fraction arithmetic with a "
     "60-digit pi on the real outputs.")
 LEVEL_NOTE = (
-    "PARTIAL (labelled): the three floating-point operations before the loop (angle % 2pi, angle/pi, tol/pi) are "
-    "outside the theorems; the model starts from the doubles the code holds after them (replicated in the harness). "
-    "For |angle| > tol*2^53 the argument reduction in binary64 cannot meet tol (the double's own spacing exceeds it); "
-    "the oracle allows |angle|*2^-53 + 2^-48 rad of rounding slack. Trusted: exactness of the binary64 loop body "
-    "(n/2^d representable, subtraction exact), angle-addition formulas, Lean kernel, harness.")
+    "The three floating-point operations before the loop (angle % 2pi, angle/pi, tol/pi) enter the theorem "
+    "result_within_float as hypotheses of the standard IEEE-754 model (np.pi within relative 2^-53 of pi, fmod exact up "
+    "to the one rounded add-back for negative angles, one correctly rounded division each) and yield the explicit bound |angle - 2 pi k - sum| <= tol(1+4u) + "
+    "8 pi u (1+u) + 2|k| u pi, u = 2^-53; the harness re-checks each hypothesis with exact rationals on every case. "
+    "PARTIAL (labelled): those hypotheses are validated per case, not proved about CPython/libm; for |angle| > "
+    "tol*2^52 the bound exceeds tol (the double's own spacing does). The builder path is modelled as one "
+    "(set Q0; rot) pair per step (emitSpec) and compared command by command. Trusted: exactness of the binary64 loop "
+    "body (n/2^d representable, subtraction exact), angle-addition formulas, Lean kernel, harness.")
 TECHNIQUE = ("Lean 4 proof (invariant + well-founded recursion over exact dyadic rationals, relation-style model) "
              "+ differential correspondence through a proved-sound acceptance checker + exact-rational oracle")
 TRUSTED = [
@@ -39,7 +42,8 @@ TRUSTED = [
     "angle-addition formulas for (cos, sin) pairs (standard trigonometry, not re-proved)",
 ]
 ASSUMPTIONS = [
-    "the rounding of `angle % 2pi`, `angle / pi` and `tol / pi` (once, before the loop) is outside the theorems",
+    "IEEE-754 model of `angle % 2pi` (exact fmod), `angle / pi`, `tol / pi`, `np.pi` — hypotheses of "
+    "result_within_float, re-checked with exact rationals on every case",
     "tolerances in [1e-9, 1e-1] as in the property (theorem needs tol/pi >= 2^-247)",
     "NaN and infinities are outside the property (the real code returns [] for them)",
 ]
@@ -105,8 +109,12 @@ def run(ctx):
             res.count("neighbouring-exponent-run")
         else:
             res.count("equal-to-exact-choice")
+        _, hyp_bad = H.float_model(a, tol)
+        if hyp_bad:
+            res.disagreements.append({"stream": "angle.float-model (hypotheses of result_within_float)", "input": inp,
+                                      "model": "IEEE-754 round-to-nearest, exact fmod", "code": hyp_bad})
         bad = H.oracle(a, tol, out)
-        if H.slack(a) > tol:
+        if H.slack(a, tol) > tol:
             res.count("argument-reduction-dominated")
         if bad:
             res.failures.append({"what": bad, "kf": None, "input": {**inp, "returned": code}})
